@@ -82,6 +82,58 @@ def compare_ts(ctx, parse, s, nontrivial=False, family="offset"):
                       "rfc3339-fraction>6-digits" if family == "fraction>6" else None)
 
 
+def choice_instant_cases(ctx):
+    """'wherever it is used': the Choice state's Timestamp* operators (literal and Path operands) through the real engine, on pairs of spellings of known
+    instants - same zone with different fraction digits, different zones, equal instants spelled differently."""
+    from lsfverif.sim import mini
+    base = 1710072000.0          # 2024-03-10T12:00:00Z
+    def spellings(t):
+        out = []
+        whole = abs(t - round(t)) < 1e-9
+        for off in (0, 330, -210, -30, 60):
+            tz = _dt.timezone(_dt.timedelta(minutes=off))
+            d = _dt.datetime.fromtimestamp(t, tz)
+            stem = d.strftime("%Y-%m-%dT%H:%M:%S")
+            o = d.strftime("%z")
+            suffix = "Z" if off == 0 else o[:3] + ":" + o[3:]
+            micro = d.microsecond
+            fr = [""] if whole else []
+            if whole:
+                fr += [".0", ".000", ".000000"]
+            else:
+                digits = ("%06d" % micro).rstrip("0")
+                fr += ["." + digits, "." + digits + "0", ".%06d" % micro]
+            out += [stem + f + suffix for f in fr]
+        return out
+    instants = [base, base + 0.5, base + 1, base - 0.25]
+    ops = {"TimestampEquals": lambda a, b: a == b, "TimestampLessThan": lambda a, b: a < b, "TimestampGreaterThan": lambda a, b: a > b,
+           "TimestampLessThanEquals": lambda a, b: a <= b, "TimestampGreaterThanEquals": lambda a, b: a >= b}
+    i = 0
+    for ta in instants:
+        for tb in instants:
+            sa, sb = spellings(ta), spellings(tb)
+            for ja, a in enumerate(sa):
+                for jb, b in enumerate(sb):
+                    if (ja + 3 * jb) % (7 if ctx.quick else 2):
+                        continue
+                    i += 1
+                    if not ctx.mine(i):
+                        continue
+                    opname = list(ops)[i % len(ops)]
+                    by_path = i % 2 == 0
+                    rule = {"Variable": "$.a", (opname + "Path" if by_path else opname): ("$.b" if by_path else b), "Next": "Y"}
+                    asl = {"StartAt": "C", "States": {"C": {"Type": "Choice", "Choices": [rule], "Default": "N"}, "Y": {"Type": "Pass", "Result": "Y", "End": True},
+                                                      "N": {"Type": "Pass", "Result": "N", "End": True}}}
+                    ctx.evaluation(); ctx.count("choice_instant_comparisons")
+                    if a[-1] == b[-1] == "Z" or a[-6:] == b[-6:]:
+                        ctx.count("choice_same_zone_pairs"); ctx.nontrivial([a, b, opname])
+                    res = mini.run(asl, {"a": a, "b": b})
+                    want = "Y" if ops[opname](round(ta, 6), round(tb, 6)) else "N"
+                    if not (res["status"] == "SUCCEEDED" and res["output"] == want):
+                        ctx.violation("choice-compares-timestamps-by-something-else-than-their-instants", dict(a=a, b=b, operator=opname, by_path=by_path, expected=want,
+                                                                                                           engine=[res["status"], res.get("output"), res.get("error")]), None)
+
+
 # ----------------------------------------------------------------------------- W: Wait states
 def iso(t, offset_minutes=0, frac=False):
     tz = _dt.timezone(_dt.timedelta(minutes=offset_minutes))
@@ -345,6 +397,7 @@ def timeout_case(ctx, rng, k):
 
 def run(ctx):
     check_parser(ctx)
+    choice_instant_cases(ctx)
     n_wait = ctx.pick(400, 40000)
     for k in range(n_wait):
         if ctx.mine(k):
@@ -371,3 +424,12 @@ def replay(ctx, doc):
     if "timestamp" in w:
         from asl_workflow_engine.state_engine import parse_rfc3339_datetime
         compare_ts(ctx, parse_rfc3339_datetime, w["timestamp"], family=w.get("family", "offset"))
+    elif "operator" in w and "a" in w:
+        from lsfverif.sim import mini
+        rule = {"Variable": "$.a", (w["operator"] + "Path" if w.get("by_path") else w["operator"]): ("$.b" if w.get("by_path") else w["b"]), "Next": "Y"}
+        asl = {"StartAt": "C", "States": {"C": {"Type": "Choice", "Choices": [rule], "Default": "N"}, "Y": {"Type": "Pass", "Result": "Y", "End": True},
+                                          "N": {"Type": "Pass", "Result": "N", "End": True}}}
+        res = mini.run(asl, {"a": w["a"], "b": w["b"]})
+        print("engine now:", res["status"], res.get("output"), "expected:", w["expected"], "instants:", R.parse_ts(w["a"]), R.parse_ts(w["b"]))
+        if res.get("output") != w["expected"]:
+            ctx.violation("choice-compares-timestamps-by-something-else-than-their-instants", w, None)
